@@ -1376,6 +1376,34 @@ impl Sim {
                     while self.deliver_c2s(client, 0, 0) {}
                 }
             }
+            Step::TimeoutEpisode { client, slot, k, mask } => {
+                if client >= nclients || !self.clients[client].connected || self.cfg.policy != 0 || !self.running || self.cfg.timeout_ms > 100 {
+                    return;
+                }
+                self.flags.insert("timeout_episode");
+                self.step(&Step::MutateAll { k: K::A });
+                self.server_frame(true);
+                for round in 0..3 {
+                    while self.clients[client].s2c[1].pop_front().is_some() {
+                        self.flags.insert("mut_dropped");
+                    }
+                    // update messages are reliable: they arrive
+                    while self.deliver_s2c(client, 0, 0) {}
+                    self.client_frame(client);
+                    for _ in 0..(self.cfg.timeout_ms / 10 + 2).min(12) {
+                        self.server_frame(false);
+                    }
+                    if round < 2 {
+                        self.server_frame(true);
+                    }
+                }
+                self.step(&Step::MutateAll { k: K::C });
+                self.server_frame(true);
+                self.step(&Step::PartialMut { client, mask, ack: true });
+                self.step(&Step::Mutate { slot, k });
+                self.server_frame(true);
+                self.step(&Step::PartialMut { client, mask: 0xff, ack: true });
+            }
             Step::DeliverAck { client, n } => {
                 for _ in 0..n {
                     if !self.deliver_c2s(client, 0, 0) {
